@@ -7,6 +7,8 @@ META = {}
 NOT_APPLICABLE = {}
 HOOK_COMMITS = ["c97a6ad", "2351cfe"]
 SAN = "runtime monitoring: "
+# checks that exist but are not yet green on the unchanged tree (triage pending) are not claimed
+NOT_READY = {"C27", "C19"}
 
 
 def plan(pid):
@@ -30,6 +32,57 @@ def c12():
     return Check("C12", [
         Leg("lib-default", "c12", shards=(4, 16)),
         Leg("miri-base", "c12", shards=(1, 4), tiers=("thorough",), timeout=MIRI_T),
+    ])
+
+
+META["C11"] = dict(
+    text="Generated JSON documents (duplicate keys, all escape forms, every number shape, depth up to 256) x formatting flag sets (compact, indent 0-7, tab, sort-keys, ascii, raw/join/NUL/seq, preserve-input) run through the real CLI; stdout re-read by an independent strict JSON reader and compared with the generator's ground truth after jq duplicate collapse. All three output routes (raw identity, lazy cursor, materialised) must be observed (route trace hook).",
+    note="Trusts Python's json decoder as the conforming reader and the generator's ground truth (cross-checked against serde_json elsewhere). Inputs up to a few KB except the deep documents.",
+    technique=SAN + "CLI round-trip monitor with ground truth by construction + route-coverage hook")
+
+
+@plan("C11")
+def c11():
+    import cli_c11
+    return Check("C11", [Leg("cli", "cli_c11", fn=cli_c11.run)])
+
+
+META["C22"] = dict(
+    text="Arrays of 1..20 hostile strings x every printable ASCII delimiter (except the quote) are formatted by the real CLI (`jq -r @csv` / `@dsv(d)`) and read back by the real CLI (`--input-dsv=d`); exactly one row equal to the array is required.",
+    note="Two CLI processes per case; the oracle is the identity on the generated array. Python json is trusted to encode the input array and decode the output row.",
+    technique=SAN + "CLI round-trip monitor (format -> parse) with generated ground truth")
+
+
+@plan("C22")
+def c22():
+    import cli_c22
+    return Check("C22", [Leg("cli", "cli_c22", fn=cli_c22.run)])
+
+
+META["C27"] = dict(
+    text="Every (document, navigation program, output flags) is executed twice by the real CLI, on the streaming route and on the materialised route forced by a semantically neutral change (jq: `# input` comment; yq: unused --arg). Hook H2 proves the two runs took different routes (else the pair is inconclusive). Outputs are compared as value sequences (result count, key order, strings exact, numbers as doubles; YAML output re-read with yq -o json). Presentation-only byte differences are counted, not flagged (DESIGN 7.2).",
+    note="'Same output' is read as the same sequence of values because the materialised route documents loss of style/number spelling. Trusts Python json and, for YAML output, succinctly's own loader (whose correctness is C14's subject).",
+    technique=SAN + "route differential on the real CLI with route-trace hook")
+
+
+@plan("C27")
+def c27():
+    import cli_c27
+    return Check("C27", [Leg("cli", "cli_c27", fn=cli_c27.run)])
+
+
+META["C19"] = dict(
+    text="Byte strings (mutants/truncations of generated JSON and YAML, indicator soups, random bytes, nesting 100..200k of every bracket kind) are pushed through every library entry point under catch_unwind (build, validate, full traversal, JSON/YAML output, DSV, jq parser) and through ~19 CLI invocations with exit-status classification; ASan builds of library harness and CLI, Miri on a reduced set and a valgrind sample watch the same workloads. Crash = panic / abort / signal / sanitizer report.",
+    note="A clean sanitizer run is 'no report on N executions', not memory safety. Documented panics beyond the generated scale (65,536-hop alias chains) are outside the explored space. Watchdog firings are inconclusive.",
+    technique=SAN + "crash monitor (catch_unwind + exit-status classification) under ASan / Miri / valgrind with hostile byte workloads")
+
+
+@plan("C19")
+def c19():
+    import cli_c19
+    return Check("C19", [
+        Leg("cli", "cli_c19", fn=cli_c19.run, label="cli:c19"),
+        Leg("asan-cli", "cli_c19", fn=cli_c19.run, label="asan-cli:c19", tiers=("thorough",), args={"fraction": 0.25}, seed_offset=1000),
     ])
 
 
